@@ -620,6 +620,9 @@ Definition bin_op (o : binop) (a b : value) : outcome :=
   match o, a, b with
   | OAdd, VInt x, VInt y => OVal (VInt (x + y))
   | OAdd, VStr s, VStr t => OVal (VStr (s ++ t))
+  | OAdd, VArr l, VArr m => OVal (VArr (l ++ m))            (* array + array concatenates *)
+  | OAdd, VArr l, VErr _ => OStuck
+  | OAdd, VArr l, v => OVal (VArr (l ++ [v]))               (* array + anything else appends it *)
   | OSub, VInt x, VInt y => OVal (VInt (x - y))
   | OLt, VInt x, VInt y => OVal (VBool (Z.ltb x y))
   | _, _, _ => OStuck
